@@ -24,6 +24,10 @@ def modelObs : List String → String
   | ["I", f, s, fl, fa] =>
     let r := identityMapRegion (w f) (w s) (w fl) (failAtOf fa)
     s!"{if r.ok then 1 else 0} {r.page.toNat} {r.calls.length} {callsStr r.calls}"
+  | ["P", req] =>
+    -- the bitmap allocator maps its own state through a reservation of `req` bytes: one page per
+    -- 4096 bytes (rounded up), starting at the reserved address, consecutively
+    s!"0 {ceilBytes (nat! req) / 4096} 0 1"
   | _ => "bad-op"
 
 /-- triples from a flat list -/
@@ -48,7 +52,10 @@ def oracle (op : List String) (obs : List Nat) : List String :=
       (if ¬ (cur' + ceilBytes s = c ∧ page * 4096 = cur') then ["region-reserved-exact"] else []) ++
       (if n ≠ want ∨ triples calls ≠ (List.range want).map (fun i => ((page + i) % 2^64, (f + i) % 2^64, fl))
         then ["region-maps-exact-pages"] else [])
-    else if fa = "-1" ∧ ceilBytes s ≤ c then ["region-fits-iff"] else []
+    else
+      (if fa = "-1" ∧ ceilBytes s ≤ c then ["region-fits-iff"] else []) ++
+      -- a region request that does not fit reserves nothing: the cursor stays where it was
+      (if fa = "-1" ∧ ¬ (ceilBytes s ≤ c) ∧ cur' ≠ c then ["region-fail-pure"] else [])
   | ["I", f, s, fl, _], ok :: page :: n :: calls =>
     let s := nat! s % 2^64; let f := nat! f; let fl := nat! fl
     let want := ceilBytes s / 4096
@@ -56,6 +63,11 @@ def oracle (op : List String) (obs : List Nat) : List String :=
       (if page ≠ f ∨ n ≠ want ∨ triples calls ≠ (List.range want).map (fun i => (f + i, f + i, fl))
         then ["identity-maps-exact-pages"] else [])
     else []
+  | ["P", req], [code, n, first, contig] =>
+    if code = 0 then
+      (if n ≠ ceilBytes (nat! req) / 4096 ∨ first ≠ 0 ∨ contig ≠ 1 then ["client-maps-exact-pages"] else [])
+    else []
+  | ["map"], _ => []
   | _, _ => ["bad-line"]
 
 structure St where
@@ -104,6 +116,8 @@ def processLine (st : St) (line : String) : IO St := do
     match toks line with
     | ["case", id] => return { st with caseId := id, hist := [], stats := st.stats.bump "cases" }
     | [] => return st
+    | "map" :: _ => return st
+    | "#" :: _ => return st
     | _ => IO.println s!"MISMATCH case={st.caseId} unparsable line: {line}"; return st
 
 def run (lines : Array String) : IO Unit := do
